@@ -124,7 +124,7 @@ def step (st : DS) (line : String) : DS × String :=
   | ["ipl1", m] => (st, bstr (b.isPseudoLegal m.toNat!))
   | ["legal"] => (st, movesStr (sortNat (MoveGen.playable K b)))
   | ["spec"] => (st, movesStr (specMoves b))
-  | ["valid"] => (st, bstr b.valid ++ bstr (Rules.epNormal b.abs))
+  | ["valid"] => (st, bstr b.valid ++ bstr (Rules.epNormal b.abs) ++ bstr (Rules.epSound b.abs))
   | ["wf"] => (st, bstr b.wf)
   | ["state"] => (st, s!"{bstr (b.inCheck b.stm)}{bstr b.isCheckmate}{bstr b.isStalemate}{bstr (Rules.inCheck b.abs b.stm)}{bstr (Rules.isCheckmate b.abs)}{bstr (Rules.isStalemate b.abs)}")
   | ["three"] => (st, toString b.threefold)
